@@ -103,6 +103,10 @@ def run(chk):
     b = vlib.run_batch(chk, "%s replay -in %s -orders 4 -out {out}" % (exe, corpus), model, "corpus")
     if b:
         vlib.digest_batch(chk, b[0], b[1], classify, state)
+    # the two renderer-level witnesses of Properties.v (errors_reported_refuted, null_data_pending_refuted)
+    b = vlib.run_batch(chk, "%s witness -out {out}" % exe, model, "witness")
+    if b:
+        vlib.digest_batch(chk, b[0], b[1], classify, state)
     n_spec, orders, allle = (100, 6, 3) if quick else (5000, 20, 4)
     n_corr = 1500 if quick else 60000
     workers = 8
